@@ -250,38 +250,88 @@ def _spawn(cfg: str):
     if cfg == "pure":
         env["PYCOIN_NATIVE"] = "none"
     p = subprocess.Popen(["/venv/bin/python", os.path.abspath(__file__)], stdin=subprocess.PIPE, stdout=subprocess.PIPE,
-                         env=env, text=True, bufsize=1)
-    hello = p.stdout.readline().strip()
+                         env=env, bufsize=0)
+    w = _Worker(p)
+    hello = w.request("hello", 60.0)
     want = "worker openssl=%d" % (1 if cfg == "openssl" else 0)
     if not hello.startswith(want):
         from lib import Infra
         raise Infra("worker for configuration %s reports %r" % (cfg, hello))
-    return p
+    return w
+
+
+class _Worker:
+    """one request line `@@<id> <op>` -> one answer line `@@<id> <answer>`.  Raw file descriptors, own line buffer, a
+    deadline per request; lines that do not carry the current id (anything pycoin might print) are discarded, so a stray
+    line can neither desynchronise the dialogue nor block it."""
+
+    def __init__(self, proc):
+        self.p = proc
+        self.buf = b""
+        self.seq = 0
+        self.stray: list = []
+
+    def alive(self) -> bool:
+        return self.p.poll() is None
+
+    def kill(self):
+        try:
+            self.p.kill()
+            self.p.wait(timeout=5)
+        except Exception:  # noqa: BLE001
+            pass
+
+    def request(self, op: str, timeout: float) -> str:
+        import select
+        import time
+        self.seq += 1
+        tag = ("@@%d " % self.seq).encode()
+        try:
+            self.p.stdin.write(tag + op.encode() + b"\n")
+            self.p.stdin.flush()
+        except (BrokenPipeError, OSError):
+            return "err WorkerDied"
+        deadline = time.time() + timeout
+        fd = self.p.stdout.fileno()
+        while True:
+            while b"\n" in self.buf:
+                line, self.buf = self.buf.split(b"\n", 1)
+                if line.startswith(tag):
+                    return line[len(tag):].decode(errors="replace")
+                if len(self.stray) < 20:
+                    self.stray.append(line[:200].decode(errors="replace"))
+            left = deadline - time.time()
+            if left <= 0:
+                return "err Timeout"
+            ready, _, _ = select.select([fd], [], [], left)
+            if not ready:
+                return "err Timeout"
+            chunk = os.read(fd, 1 << 16)
+            if not chunk:
+                return "err WorkerDied"
+            self.buf += chunk
 
 
 def call(op: str) -> str:
+    """evaluate one op in the worker of its configuration; always returns one answer (`err Timeout` / `err WorkerDied`
+    when the implementation does not come back), never blocks beyond the deadline"""
+    global _TIMEOUTS
     cfg = op_config(op)
     if cfg not in CONFIGS:
         return "bad-op"
     w = _WORKERS.get(cfg)
-    if w is None or w.poll() is not None:
+    if w is None or not w.alive():
         w = _WORKERS[cfg] = _spawn(cfg)
-    w.stdin.write(op + "\n")
-    w.stdin.flush()
-    # an implementation call that does not come back (a retry loop that never ends) is reported as `err Timeout`
-    import select
-    global _TIMEOUTS
-    ready, _, _ = select.select([w.stdout], [], [], WORKER_TIMEOUT_S if _TIMEOUTS < 3 else 5.0)
-    if not ready:
+    ans = w.request(op, WORKER_TIMEOUT_S if _TIMEOUTS < 3 else 5.0)
+    if ans in ("err Timeout", "err WorkerDied"):
         _TIMEOUTS += 1
+        STRAY.extend(w.stray)
         w.kill()
         _WORKERS.pop(cfg, None)
-        return "err Timeout"
-    ans = w.stdout.readline()
-    if not ans:
-        from lib import Infra
-        raise Infra("worker %s died on %s" % (cfg, op[:200]))
-    return ans.rstrip("\n")
+    return ans
+
+
+STRAY: list = []
 
 
 _CACHE: dict = {}
@@ -298,10 +348,13 @@ def impl(op: str) -> str:
 
 @atexit.register
 def _close():
+    stray = STRAY + [l for w in _WORKERS.values() for l in w.stray]
+    if stray and os.environ.get("VERIF_DEBUG_WORKER"):
+        sys.stderr.write("stray worker lines: %r\n" % stray[:10])
     for w in _WORKERS.values():
         try:
-            w.stdin.close()
-            w.wait(timeout=5)
+            w.p.stdin.close()
+            w.p.wait(timeout=5)
         except Exception:  # noqa: BLE001
             w.kill()
 
@@ -438,17 +491,26 @@ def rfc6979_ref(q: int, x: int, h1: bytes, hashf=hashlib.sha256) -> int:
 # ------------------------------------------------------------------ worker main
 
 def _main():
+    # answers go to a private copy of stdout; fd 1 itself is pointed at stderr so that nothing pycoin (or a library)
+    # prints can enter the dialogue
+    out = os.fdopen(os.dup(1), "w")
+    os.dup2(2, 1)
+    sys.stdout = sys.stderr
     from pycoin.ecdsa.secp256k1 import secp256k1_generator
     from pycoin.ecdsa.native.secp256k1 import libsecp256k1
     has_ossl = any("openssl" in c.__module__ and c.__name__ == "Optimizations" for c in type(secp256k1_generator).__mro__)
-    sys.stdout.write("worker openssl=%d libsecp256k1=%d\n" % (1 if has_ossl else 0, 1 if libsecp256k1 else 0))
-    sys.stdout.flush()
+    hello = "worker openssl=%d libsecp256k1=%d" % (1 if has_ossl else 0, 1 if libsecp256k1 else 0)
     for line in sys.stdin:
         line = line.rstrip("\n")
         if not line:
             continue
-        sys.stdout.write(eval_op(line) + "\n")
-        sys.stdout.flush()
+        tag, _, op = line.partition(" ")
+        try:
+            ans = hello if op == "hello" else eval_op(op)
+        except BaseException as e:  # noqa: BLE001  (a worker never leaves a request unanswered)
+            ans = "err " + type(e).__name__
+        out.write("%s %s\n" % (tag, ans.replace("\n", " ")))
+        out.flush()
 
 
 if __name__ == "__main__":
